@@ -310,6 +310,34 @@ def search(ck, tu, tcs, maxsize, seed):
             if not close(out, exp, tol=1e-9):
                 ck.finding("logabsdet:wrong", "logabsdet=%r, log|det|=%r" % (out, exp),
                            {"search": "logabsdet", "m": m0.tolist()})
+    # matrices whose determinant leaves the floating-point range although its logarithm is modest
+    import numpy as _np
+    for dtype, scales in ((torch.float64, (1e-120, 1e-12, 1e10, 1e80)), (torch.float32, (1e-12, 1e-4, 1e10))):
+        for n_ in (2, 4, 6):
+            for sc in scales:
+                g = tgen(seed, "lad-scale", n_, sc)
+                base = torch.randn(n_, n_, generator=g, dtype=torch.float64) + 2.0 * torch.eye(n_, dtype=torch.float64)
+                m = (base * sc).to(dtype)
+                m0 = m.clone()
+                out = attempt(lambda: float(tu.logabsdet(m)))
+                ck.case(("s-lad-scale", str(dtype), n_, sc), nontrivial=True)
+                sign, ref = _np.linalg.slogdet(base.numpy())
+                exp = float(ref) + n_ * math.log(sc)
+                mut("logabsdet", [m0], [m], {"n": n_, "scale": sc})
+                if out[0] != "ok" or not close(out[1], exp, tol=1e-9 if dtype == torch.float64 else 2e-4):
+                    ck.finding("logabsdet:wrong", "%s %dx%d matrix with entries of size %g: logabsdet=%r, log|det|=%r"
+                               % (dtype, n_, n_, sc, out[1] if out[0] == "ok" else out[1:], exp),
+                               {"search": "logabsdet-scale", "n": n_, "scale": sc, "dtype": str(dtype), "base": base.tolist()})
+    for n_ in (64, 128):
+        torch.manual_seed(seed + n_)
+        q = tu.random_orthogonal(n_)
+        m = (3.0 * q).float()
+        ck.case(("s-lad-orth", n_), nontrivial=True)
+        out = attempt(lambda: float(tu.logabsdet(m)))
+        exp = n_ * math.log(3.0)
+        if out[0] != "ok" or not close(out[1], exp, tol=1e-3):
+            ck.finding("logabsdet:wrong", "float32 3 * orthogonal(%d): logabsdet=%r, log|det|=%r" % (n_, out[1] if out[0] == "ok" else out[1:], exp),
+                       {"search": "logabsdet-orthogonal", "n": n_, "seed": seed})
     # masks
     for feats in range(1, 14):
         for even in (True, False):
